@@ -39,8 +39,45 @@ impl Node {
             assert_eq!(app.raft.current_leader().await, Some(1), "raft leader");
             // give the start-up writes (node address, init admin user) time to be applied
             tokio::time::sleep(Duration::from_millis(600)).await;
+            // start-up may still (re)load the cache: wait until a probe entry written through raft stays readable
+            let key = rnacos::cache::model::CacheKey::new(
+                rnacos::cache::model::CacheType::String,
+                Arc::new("verif-probe".to_owned()),
+            );
+            let mut stable = 0;
+            for _ in 0..60 {
+                if cache_has(&app, &key).await {
+                    stable += 1;
+                    if stable >= 3 {
+                        break;
+                    }
+                } else {
+                    stable = 0;
+                    let req = rnacos::cache::actor_model::CacheManagerRaftReq::Set(
+                        rnacos::cache::actor_model::CacheSetParam::new_with_ttl(
+                            key.clone(),
+                            rnacos::cache::model::CacheValue::String(Arc::new("1".to_owned())),
+                            3600,
+                        ),
+                    );
+                    app.raft_request_route
+                        .request(rnacos::raft::store::ClientRequest::CacheReq { req })
+                        .await
+                        .ok();
+                }
+                tokio::time::sleep(Duration::from_millis(200)).await;
+            }
             app
         });
         Node { runner, app, _dir: dir }
     }
+}
+
+/// is the key present in the node-local cache (the lookup the middlewares use first)
+pub async fn cache_has(app: &Arc<AppShareData>, key: &rnacos::cache::model::CacheKey) -> bool {
+    let req = rnacos::cache::actor_model::CacheManagerLocalReq::Get(key.clone());
+    matches!(
+        app.direct_cache_manager.send(req).await,
+        Ok(Ok(rnacos::cache::actor_model::CacheManagerRaftResult::Value(_)))
+    )
 }
